@@ -102,7 +102,7 @@ pub const TOK_REPS: [&str; 30] = [
     "a", "i1", "f2", "\"s\"", "true", "none", "if", "then", "else", "and", "==", "!=", ">=", "+", "-", "*", "&", "contains", "in", "!", ".", "0",
     "(", ")", "int", ":", "[", "]", ",", "{",
 ];
-pub const TOK_REPS16: [&str; 16] = ["a", "i1", "if", "then", "else", "and", "==", "+", "*", "&", "contains", "-", ".", "0", "(", ")"];
+pub const TOK_REPS16: [&str; 17] = ["a", "f", "i1", "if", "then", "else", "and", "==", "+", "*", "&", "contains", "-", ".", "0", "(", ")"];
 
 pub fn toks_stream(thorough: bool) -> Vec<TextCase> {
     let reps: Vec<String> = TOK_REPS.iter().map(|s| s.to_string()).collect();
@@ -380,7 +380,8 @@ pub fn mutation_stream(rng: &mut Rng, thorough: bool) -> Vec<TextCase> {
 // ---------------------------------------------------------------- trees in the parser's image (C07 / C16)
 
 pub fn image_leaves() -> Vec<Expr> {
-    let mut v: Vec<Expr> = vec![reff("a"), reff("if1"), Expr::Symbol("s".into()), lit(Value::None), lit(Value::Bool(true)), lit(Value::Int(5)), lit(Value::Int(-5)), lit(Value::Int(i128::MIN)),
+    // names that are also literal prefixes: `f.5` / `d.5` / `i5` are literals, so `f .5` must not print as `f.5`
+    let mut v: Vec<Expr> = vec![reff("a"), reff("if1"), reff("f"), reff("d"), reff("i"), Expr::Symbol("s".into()), Expr::Symbol("f".into()), Expr::Symbol("d".into()), lit(Value::None), lit(Value::Bool(true)), lit(Value::Int(5)), lit(Value::Int(-5)), lit(Value::Int(i128::MIN)),
         lit(Value::Float(2.0)), lit(Value::Float(-0.5)), lit(Value::Float(1e300)), lit(Value::Float(-0.0)), lit(Value::Float(5e-324)), lit(Value::Float(f64::MAX)), lit(Value::Float(1e21)),
         lit(crate::pool::d(2, 0)), lit(crate::pool::d(-15, 1)), lit(crate::pool::d(0, 3)), lit(crate::pool::d(1, 28)),
         lit(crate::pool::s("")), lit(crate::pool::s("a b")), lit(crate::pool::s("q\"\\\n\t'é")), lit(crate::pool::s("//x")), lit(crate::pool::s("\u{0}\u{10FFFF}"))];
@@ -696,7 +697,7 @@ pub fn run_c06(rep: &mut Report, driver: &str, workers: usize, thorough: bool, s
     texts.extend(prec_stream());
     let rule_texts: Vec<TextCase> = texts.iter().filter(|t| t.tag != "toks30" && t.tag != "toks9").step_by(3).map(|t| TextCase { text: format!("//n\n@k: {}; {}", t.text, t.text), tag: "as-rule" }).collect();
     let run = run_texts(texts, false, driver, workers);
-    judge_texts("C06", "expr-texts", "every string of length <= 3 (thorough 4) over the 24-character literal alphabet `ifd0189xboe.+-\"\\/nu{}_a ` and of length <= 2 (3) over 37 punctuation / whitespace / non-ASCII characters; every sequence of <= 3 (4) of 30 token representatives, <= 4 (5) of 16 and <= 5 (6) of the 9 compound-literal token classes; string literals mixing 1- to 4-byte characters with 16 valid / invalid escape forms at every distance 0..14 from either end; character-level mutations (delete / duplicate / insert junk / swap) of grammar-generated texts; out-of-range numerals in every numeric position, every escape form, control and non-ASCII characters; the precedence texts — through Expr::parse under catch_unwind", false, &run, "panic", rep);
+    judge_texts("C06", "expr-texts", "every string of length <= 3 (thorough 4) over the 24-character literal alphabet `ifd0189xboe.+-\"\\/nu{}_a ` and of length <= 2 (3) over 37 punctuation / whitespace / non-ASCII characters; every sequence of <= 3 (4) of 30 token representatives, <= 4 (5) of 17 and <= 5 (6) of the 9 compound-literal token classes; string literals mixing 1- to 4-byte characters with 16 valid / invalid escape forms at every distance 0..14 from either end; character-level mutations (delete / duplicate / insert junk / swap) of grammar-generated texts; out-of-range numerals in every numeric position, every escape form, control and non-ASCII characters; the precedence texts — through Expr::parse under catch_unwind", false, &run, "panic", rep);
     let mut more = rule_stream(&mut rng, false);
     more.extend(rule_texts);
     let run2 = run_texts(more, true, driver, workers);
@@ -710,7 +711,7 @@ pub fn run_c07(rep: &mut Report, driver: &str, workers: usize, thorough: bool, s
     let mut seqs = toks_stream(thorough);
     seqs.extend(brackets_stream(thorough));
     let run = run_texts(seqs, false, driver, workers);
-    judge_texts("C07", "token-sequences", "every sequence of <= 3 (thorough 4) of 30 token representatives, of <= 4 (thorough 5) of 16 representatives (one per precedence level and bracket kind) and of <= 5 (thorough 6) of the 9 compound-literal token classes (identifier, non-identifier string, literal, `: , [ ] { }`), accepted and rejected alike", true, &run, "full", rep);
+    judge_texts("C07", "token-sequences", "every sequence of <= 3 (thorough 4) of 30 token representatives, of <= 4 (thorough 5) of 17 representatives (one per precedence level and bracket kind) and of <= 5 (thorough 6) of the 9 compound-literal token classes (identifier, non-identifier string, literal, `: , [ ] { }`), accepted and rejected alike", true, &run, "full", rep);
     // every tree of the image rendered with minimal, full and random redundant parentheses parses back to itself
     let trees: Vec<Expr> = image_trees(&mut rng, thorough).into_iter().filter(|e| !has_nonfinite(e)).collect();
     let mut texts = vec![];
@@ -880,7 +881,7 @@ pub fn run_c16(rep: &mut Report, driver: &str, workers: usize, thorough: bool, s
                 });
             }
         });
-        let mut sr2 = StreamReport::new("accepted-texts", "every sequence of <= 3 (thorough 4) of 30 token representatives, <= 4 (5) of 16, <= 5 (6) of the 9 compound-literal token classes, the precedence texts and the mixed-width string literals: whenever the real parser accepts the text, the rendering of the tree it returned must parse back to an equal tree (predicate on the real code alone; no model involved)", true);
+        let mut sr2 = StreamReport::new("accepted-texts", "every sequence of <= 3 (thorough 4) of 30 token representatives, <= 4 (5) of 17, <= 5 (6) of the 9 compound-literal token classes, the precedence texts and the mixed-width string literals: whenever the real parser accepts the text, the rendering of the tree it returned must parse back to an equal tree (predicate on the real code alone; no model involved)", true);
         for (t, o) in texts.iter().zip(out.iter()) {
             sr2.count(&t.text, !o.is_empty());
             sr2.hist("outcome", if o.is_empty() { "text rejected" } else { o.split('\t').next().unwrap_or("") });
